@@ -865,21 +865,30 @@ impl<R: Read> RdbReader<R> {
             None // Already expired
         };
         
-        self.read_key_value_with_type(storage, db, value_type, ttl)
+        let key = self.read_key_value_with_type(storage, db, value_type, ttl)?;
+        
+        if ttl.is_none() {
+            // The deadline passed while the server was down: the value had to be read to get past
+            // it, but the key must not come back (least of all without its TTL)
+            storage.delete(db, &key)?;
+        }
+        
+        Ok(())
     }
     
-    /// Read key-value with known type
-    fn read_key_value_with_type(&mut self, storage: &Arc<StorageEngine>, db: usize, value_type: u8, ttl: Option<Duration>) -> Result<()> {
-        match value_type {
+    /// Read key-value with known type; returns the key
+    fn read_key_value_with_type(&mut self, storage: &Arc<StorageEngine>, db: usize, value_type: u8, ttl: Option<Duration>) -> Result<Vec<u8>> {
+        let key = match value_type {
             op if op == RdbOpcode::String as u8 => {
                 let key = self.read_string()?;
                 let value = self.read_string()?;
                 
                 if let Some(ttl) = ttl {
-                    storage.set_string_ex(db, key, value, ttl)?;
+                    storage.set_string_ex(db, key.clone(), value, ttl)?;
                 } else {
-                    storage.set_string(db, key, value)?;
+                    storage.set_string(db, key.clone(), value)?;
                 }
+                key
             }
             op if op == RdbOpcode::ZSet as u8 || op == RdbOpcode::ZSet2 as u8 => {
                 let key = self.read_string()?;
@@ -894,6 +903,7 @@ impl<R: Read> RdbReader<R> {
                 if let Some(ttl) = ttl {
                     storage.expire(db, &key, ttl)?;
                 }
+                key
             }
             op if op == RdbOpcode::List as u8 => {
                 let key = self.read_string()?;
@@ -950,7 +960,7 @@ impl<R: Read> RdbReader<R> {
                         if let Some(ttl) = ttl {
                             storage.expire(db, &key, ttl)?;
                         }
-                        return Ok(());
+                        return Ok(key);
                     } else {
                         // Regular list - first element already read
                         storage.rpush(db, key.clone(), vec![first_element])?;
@@ -968,6 +978,7 @@ impl<R: Read> RdbReader<R> {
                 if let Some(ttl) = ttl {
                     storage.expire(db, &key, ttl)?;
                 }
+                key
             }
             op if op == RdbOpcode::Set as u8 => {
                 let key = self.read_string()?;
@@ -983,6 +994,7 @@ impl<R: Read> RdbReader<R> {
                 if let Some(ttl) = ttl {
                     storage.expire(db, &key, ttl)?;
                 }
+                key
             }
             op if op == RdbOpcode::Hash as u8 => {
                 let key = self.read_string()?;
@@ -1000,14 +1012,15 @@ impl<R: Read> RdbReader<R> {
                 if let Some(ttl) = ttl {
                     storage.expire(db, &key, ttl)?;
                 }
+                key
             }
             _ => {
                 // Skip unknown types for now
                 return Err(FerrousError::Io(format!("Unknown value type: {}", value_type)));
             }
-        }
+        };
         
-        Ok(())
+        Ok(key)
     }
     
     /// Read a single byte
